@@ -277,5 +277,11 @@ def replay(ctx, path):
     exe, ok_h, hlog = core.build_harness("thr", "tsan")
     lines = [l for l in open(path) if l.strip() and not l.startswith("#")]
     rc, out = core.sh([exe], input="".join(lines), env={"TSAN_OPTIONS": TSAN_OPTS})
-    print(out[-6000:])
-    return 0
+    blocks = tsan_blocks(out)
+    for l in out.split("\n"):
+        if re.match(r"\S+ (ok|mismatch|error|referr) T=", l) or l.startswith("SUMMARY: ThreadSanitizer"):
+            print(l[:400])
+    print("ThreadSanitizer reports: %d; driver exit status %d" % (len(blocks), rc))
+    if blocks:
+        print("\n".join(blocks[0].split("\n")[:40]))
+    return 1 if (blocks or rc not in (0,)) else 0
